@@ -296,6 +296,14 @@ func init() {
 			})
 			return nil
 		},
+		"sort.SliceStable": func(fr *frame, a []value) value {
+			sl := a[0].(iface).v.([]value)
+			less := a[1]
+			sort.SliceStable(sl, func(x, y int) bool {
+				return call(fr.i, fr, token.NoPos, less, []value{x, y}).(bool)
+			})
+			return nil
+		},
 		"regexp.MustCompile": func(fr *frame, a []value) value {
 			var c value = &nativeObj{regexp.MustCompile(str(a[0]))}
 			return &c
